@@ -105,9 +105,12 @@ def gen_step(rng, cs):
         resp = rng.choice([[b"20 text/plain\r\nhello"], [b"20 text/gemini\r\n", b"# hi"], [b"51 Not found\r\n"], [b"30 gemini://b.example/\r\n"], [b"2"], []])
         return ("call", op, host, port, der, resp, rng.choice([None, None, "ConnectionResetError"]),
                 rng.choice([b"", b"x", b"secret content"]), rng.choice([None, "tok3n"]))
-    if k < 0.82: return ("trust", host, port, rng.randrange(len(cs)))
-    if k < 0.92: return ("revoke", host, port)
-    return ("clear",)
+    if k < 0.78: return ("trust", host, port, rng.randrange(len(cs)))
+    if k < 0.84: return ("revoke", host, port)
+    if k < 0.87: return ("clear",)
+    if k < 0.92: return ("import", host, port, rng.randrange(len(cs)), rng.random() < 0.7)       # re-pin through an import (merge, conflict accepted / replace)
+    if k < 0.96: return ("external_trust", host, port, rng.randrange(len(cs)))                   # another TOFUDatabase object on the same file (e.g. the CLI)
+    return ("external_revoke", host, port)
 
 def run_histories(tier, seed, tofu_modes=(True, False)):
     setup_impl()
@@ -148,7 +151,18 @@ def run_histories(tier, seed, tofu_modes=(True, False)):
                                         "url": url})
                     elif st[0] == "trust": db.trust(st[1][1:-1] if st[1].startswith("[") else st[1], st[2], cs[st[3]]["cert"])
                     elif st[0] == "revoke": db.revoke(st[1][1:-1] if st[1].startswith("[") else st[1], st[2])
-                    else: db.clear()
+                    elif st[0] == "clear": db.clear()
+                    elif st[0] == "import":
+                        import tomli_w
+                        h = st[1][1:-1] if st[1].startswith("[") else st[1]
+                        f = Path(tmp) / "imp.toml"
+                        with open(f, "wb") as fh:
+                            tomli_w.dump({"hosts": {"k": {"hostname": h, "port": st[2], "fingerprint": cs[st[3]]["fp"], "first_seen": "T", "last_seen": "T"}}}, fh)
+                        db.import_toml(f, merge=st[4], on_conflict=lambda *a: True)
+                    elif st[0] == "external_trust":
+                        TOFUDatabase(path).trust(st[1][1:-1] if st[1].startswith("[") else st[1], st[2], cs[st[3]]["cert"])
+                    elif st[0] == "external_revoke":
+                        TOFUDatabase(path).revoke(st[1][1:-1] if st[1].startswith("[") else st[1], st[2])
                 path.unlink()
         asyncio.run(go())
     finally:
